@@ -10,7 +10,7 @@ from ..trace import split_units
 ID = "C07"
 LEVEL = "exploration"
 WORLDS = [(1, "plain")]
-BUDGET = {"quick": dict(cases=800, bits16=False), "thorough": dict(cases=20000, bits16=True)}
+BUDGET = {"quick": dict(cases=1600, bits16=False), "thorough": dict(cases=60000, bits16=True)}
 MIN_NONTRIVIAL = {"quick": 2000, "thorough": 30000}
 BLOB = (200, 900)
 RULE = ("Enumerated: every 8-bit pattern (quick) and every 16-bit pattern (thorough) of INT, UINT and HEX variables, eight values per command - these "
